@@ -63,7 +63,17 @@ func main() {
 		default:
 			m = new(cors.Middleware)
 		}
-		h := m.Wrap(http.HandlerFunc(func(w http.ResponseWriter, r *http.Request) { w.Header().Set("X-Inner", "1") }))
+		h := m.Wrap(http.HandlerFunc(func(w http.ResponseWriter, r *http.Request) {
+			// in-place edits of the values this request's handler can reach (they belong to this request only)
+			for _, hd := range []http.Header{w.Header(), r.Header} {
+				for _, v := range hd {
+					for i := range v {
+						v[i] += "~h"
+					}
+				}
+			}
+			w.Header().Set("X-Inner", "1")
+		}))
 		var wg sync.WaitGroup
 		for g := 0; g < 3; g++ {
 			wg.Add(1)
